@@ -7,6 +7,17 @@ VERIF = Path(__file__).resolve().parent.parent
 
 # property id -> (design section, what the theorems give, what is assumed)
 CLAIMS = {
+    "C18": ("8/C18",
+            "Lean 4: the dataset tables are regenerated from the loader modules of the working tree by translator T2 and the "
+            "finite statements are re-decided by the kernel on every run (decide +kernel, no axioms): every documented name in "
+            "each '-'/'_' spelling resolves to an exported loader, every documented remote name has its own record, remote "
+            "URLs / checksums / file names / cache slots are pairwise distinct, every bundled CSV has two fields per row and a "
+            "strictly increasing first column; general theorems: unknown names give ValueError, unpack returns the two "
+            "columns, the data home follows TRAFFIC_WEAVER_DATA. Tie: T2 + exhaustive correspondence of load_dataset with the "
+            "resolution model over all names x spellings x unpack, urlretrieve replaced by a recorder.",
+            "T2 (observation of the loaders through a recording stub, string -> code-point encoding, cache-path normalisation); "
+            "the pinned SHA-256 is not recomputed (fake payloads; the checksum routine is replaced by a table lookup); real "
+            "downloads are never attempted; expanduser / makedirs are the OS's."),
     "C05": ("8/C05",
             "Lean 4 theorems for arbitrary strictly increasing grids, arbitrary averages and every valid window assignment "
             "(fixed: windowsFixed_valid; adaptive: windowsAdaptive_valid for every positive smoothing function): border value "
@@ -110,7 +121,7 @@ NOT_YET = {
 ALL = [f"C{n:02d}" for n in range(1, 21)]
 
 # properties whose theorems, tie and check are complete enough to be claimed
-BUILT = ["C01", "C03", "C04", "C05", "C06", "C07", "C10", "C12", "C14", "C17"]
+BUILT = ["C01", "C03", "C04", "C05", "C06", "C07", "C10", "C12", "C14", "C17", "C18"]
 
 
 
